@@ -26,7 +26,7 @@ def jobs(tier, seed, pool):
     for kind in ('in', 'exp'):
         for n, _ in inputs.sample_names(kind):
             add({'sample': n}, 'cur', 'sample')
-    nseeds = 1 if tier == 'quick' else 8
+    nseeds = 4 if tier == 'quick' else 12
     for v, t, s in synth.population(nseeds, seed0=seed):
         if tier == 'quick':
             add(synth.synth_init(v, t, s, k=2), 'cur' if (hash_parity(v, t, s, seed)) else 'ref', 'synth', (v, t))
